@@ -1,6 +1,7 @@
 package main
 
 import (
+	"strings"
 	"crypto/sha256"
 	"encoding/hex"
 	"sort"
@@ -98,6 +99,13 @@ func dumpStore(nibiru *app.NibiruApp, ctx sdk.Context, name string) [][2]string 
 		out = append(out, [2]string{hex.EncodeToString(it.Key()), hex.EncodeToString(it.Value())})
 	}
 	return out
+}
+
+// mkMetaDec: metadata with a display unit of `exp` decimals and a symbol that is itself a valid denom — the ERC20 deployed for such
+// a coin reports decimals/symbol from which createFunTokenFromERC20 could build valid bank metadata again
+func mkMetaDec(d, display string, exp uint32) banktypes.Metadata {
+	return banktypes.Metadata{DenomUnits: []*banktypes.DenomUnit{{Denom: d, Exponent: 0}, {Denom: display, Exponent: exp}}, Base: d, Display: display,
+		Name: display, Symbol: strings.ToUpper(display)}
 }
 
 func mkMetaPc(d string) banktypes.Metadata {
